@@ -621,6 +621,10 @@ class Translator:
         lhs = s.lhs
         if lhs.kind == "path" and len(lhs.path) == 1:
             x = self.lookup(lhs.path[0])
+            if s.op == "=" and s.rhs.kind in ("if", "match", "block", "iflet") and not self.is_simple_value(s.rhs):
+                # `x = if c { a } else { return r };` — each branch assigns (or leaves) by itself
+                self.value_stmt(s.rhs, ("var", x))
+                return
             r = self.ex(s.rhs, hoist=True)
             if s.op == "=":
                 self.em.w(f"{x} := {r}")
@@ -1766,6 +1770,10 @@ class ArraySetProfile(Translator):
             v = self.ex(s.rhs, hoist=True)
             self.em.w(f"m := {{ m with len := m.len {s.op[0]} {self.atom(v)} }}")
             return True
+        if self.is_length(lhs) and s.op == "=":
+            v = self.ex(s.rhs, hoist=True)
+            self.em.w(f"m := {{ m with len := {v} }}")
+            return True
         return False
 
     # `match a.cmp(b) { Ordering::Less [if g] => .., Ordering::Greater => .., Ordering::Equal => .. }`
@@ -2273,10 +2281,60 @@ def gen_pod():
             e = e.e
         return e
 
+    def subst(node, name, repl):
+        """node with every use of the local `name` replaced by the expression `repl`"""
+        if isinstance(node, N):
+            if node.kind == "path" and node.path == [name]:
+                return repl
+            return N(node.kind, **{k: subst(v, name, repl) for k, v in node.__dict__.items() if k != "kind"})
+        if isinstance(node, list):
+            return [subst(v, name, repl) for v in node]
+        if isinstance(node, tuple):
+            return tuple(subst(v, name, repl) for v in node)
+        return node
+
     def single(body):
-        if body is None or body.stmts or body.tail is None:
+        """The body as one expression. Accepted besides a bare tail expression: leading `let x = e;` of an immutable
+        local (substituted), and `if c { return a; }` before the tail `b` (read as `if c { a } else { b }`)."""
+        if body is None or body.tail is None:
             raise Untranslatable("not a single expression")
-        return body.tail
+        tail = body.tail
+        for st in reversed(body.stmts):
+            if st.kind == "let" and st.pat.kind == "pident" and not st.pat.mut and st.init is not None:
+                tail = subst(tail, st.pat.name, st.init)
+                continue
+            e = st.e if st.kind == "sexpr" else st
+
+            def unwrap(x):
+                return x.e if x.kind == "sexpr" else x
+            if e.kind == "if" and e.els is None and len(e.then.stmts) == 1 and e.then.tail is None and unwrap(e.then.stmts[0]).kind == "return" and unwrap(e.then.stmts[0]).e is not None:
+                tail = N("if", cond=e.cond, then=N("block", stmts=[], tail=unwrap(e.then.stmts[0]).e), els=N("block", stmts=[], tail=tail))
+                continue
+            if e.kind == "if" and e.els is None and not e.then.stmts and e.then.tail is not None and e.then.tail.kind == "return" and e.then.tail.e is not None:
+                tail = N("if", cond=e.cond, then=N("block", stmts=[], tail=e.then.tail.e), els=N("block", stmts=[], tail=tail))
+                continue
+            if e.kind == "if" and e.els is None and len(e.then.stmts) == 1 and e.then.tail is None and e.then.stmts[0].kind == "return" and e.then.stmts[0].e is not None:
+                tail = N("if", cond=e.cond, then=N("block", stmts=[], tail=e.then.stmts[0].e), els=N("block", stmts=[], tail=tail))
+                continue
+            raise Untranslatable("not a single expression")
+        return norm(tail)
+
+    def norm(e):
+        """`match c { true => a, false => b }` is `if c { a } else { b }`; `!(x == y)` is `x != y` (and the reverse)."""
+        if e.kind == "match" and len(e.arms) == 2 and all(len(p) == 1 and g is None and p[0].kind == "pident" for p, g, _ in e.arms) \
+                and sorted(p[0].name for p, _, _ in e.arms) == ["false", "true"]:
+            arm = {p[0].name: b for p, _, b in e.arms}
+            blk = lambda b: b if b.kind == "block" else N("block", stmts=[], tail=b)  # noqa: E731
+            return N("if", cond=e.e, then=blk(arm["true"]), els=blk(arm["false"]))
+        if e.kind == "un" and e.op == "!":
+            x = e.e
+            while x.kind == "paren":
+                x = x.e
+            if x.kind == "bin" and x.op in ("==", "!="):
+                return N("bin", op="!=" if x.op == "==" else "==", l=x.l, r=x.r)
+        return e
+
+    delegated = []
 
     def emit(name, text):
         defs.append(text)
@@ -2300,12 +2358,21 @@ def gen_pod():
             continue
         try:
             e = single(f.body)
+            # one impl delegating to its sibling: `Self::from(&b)` / `Self::from(*b)` / `bool::from(&b)`
+            if e.kind == "call" and e.f.kind == "path" and len(e.f.path) == 2 and e.f.path[1] == "from" and e.f.path[0] in ("Self", "bool", "PodBool") \
+                    and len(e.args) == 1 and is_path(strip(e.args[0]), pn) and (e.args[0].kind in ("ref", "deref")):
+                other = {"bool_to_pod": "bool_ref_to_pod", "bool_ref_to_pod": "bool_to_pod", "pod_to_bool": "pod_ref_to_bool", "pod_ref_to_bool": "pod_to_bool"}[nm]
+                ty_in, ty_out = ("Bool", "UInt8") if pt in ("bool", "&bool") else ("UInt8", "Bool")
+                delegated.append((nm, other, f"/-- `From<{pt}>` (line {f.src_line}) delegates to the impl for the {'owned' if e.args[0].kind == 'deref' else 'borrowed'} value. -/\ndef {nm} ({pn} : {ty_in}) : {ty_out} := {other} {pn}"))
+                continue
             if pt in ("bool", "&bool"):
-                # Self(b.into()) / Self((*b).into())
+                # Self(b.into()) / Self((*b).into()) / Self(u8::from(b))
                 if not (e.kind == "call" and is_path(e.f, "Self") and len(e.args) == 1):
                     raise Untranslatable("expected Self(..)")
                 a = e.args[0]
-                if not (a.kind == "mcall" and a.name == "into" and is_path(strip(a.recv), pn)):
+                conv = (a.kind == "mcall" and a.name == "into" and is_path(strip(a.recv), pn)) or \
+                       (a.kind == "call" and a.f.kind == "path" and a.f.path == ["u8", "from"] and len(a.args) == 1 and is_path(strip(a.args[0]), pn))
+                if not conv:
                     raise Untranslatable("expected b.into()")
                 emit(nm, f"/-- `From<{pt}> for PodBool` (line {f.src_line}): `bool::into::<u8>` is 1 for true, 0 for false. -/\ndef {nm} ({pn} : Bool) : UInt8 := if {pn} then 1 else 0")
             else:
@@ -2316,6 +2383,12 @@ def gen_pod():
                 emit(nm, f"/-- `From<{pt}> for bool` (line {f.src_line}). -/\ndef {nm} ({pn} : UInt8) : Bool := decide ({pn} {op} {int(e.r.val, 0)})")
         except (Untranslatable, ParseError) as ex:
             fail(nm, str(ex))
+    for nm, other, text in delegated:
+        # a delegation is only meaningful towards an impl that computes by itself (no cycles)
+        if other in report["translated"] and other not in [d[0] for d in delegated]:
+            emit(nm, text)
+        else:
+            fail(nm, f"delegates to `{other}`, which is not translated")
     for want in ("bool_to_pod", "bool_ref_to_pod", "pod_ref_to_bool", "pod_to_bool"):
         if want not in report["translated"] and want not in report["untranslatable"]:
             report["missing"].append(want)
@@ -2337,7 +2410,7 @@ def gen_pod():
             neg = False
             if c.kind == "un" and c.op == "!":
                 neg, c = True, c.e
-            if not (c.kind == "mcall" and c.name in ("is_some", "is_none") and c.recv.kind == "tfield" and c.recv.idx == 0 and is_path(strip(c.recv.e), "self")):
+            if not (c.kind == "mcall" and c.name in ("is_some", "is_none") and strip(c.recv).kind == "tfield" and strip(c.recv).idx == 0 and is_path(strip(strip(c.recv).e), "self")):
                 raise Untranslatable("expected self.0.is_some()")
             pred = "isSome inner" if c.name == "is_some" else "isNone inner"
             if neg:
@@ -2796,7 +2869,24 @@ def write_if_changed(path, text):
     open(path, "w").write(text)
 
 
+def _guard(fn, source):
+    """A translator crash (an AST shape no profile anticipates) is reported, never silently survived: the generated files
+    of that source may be stale, so `check` treats the report as a broken obligation."""
+    def run(*a):
+        try:
+            return fn(*a)
+        except Exception as ex:  # noqa: BLE001
+            import traceback
+            sys.stderr.write(traceback.format_exc())
+            return {"source": source if not a else str(a[0]), "namespace": "?", "translated": [], "untranslatable": {"<crash>": f"{type(ex).__name__}: {ex}"[:300]}, "missing": []}
+    return run
+
+
 def main():
+    global gen_tree, gen_hset, gen_aset, gen_str, gen_pod, gen_views
+    gen_tree, gen_hset, gen_aset, gen_str = (_guard(f, "?") for f in (gen_tree, gen_hset, gen_aset, gen_str))
+    gen_pod = _guard(gen_pod, "src/pod/pod_bool.rs, src/pod/pod_option.rs, src/lib.rs")
+    gen_views = _guard(gen_views, "src/collections/*.rs (from_bytes, from_bytes_mut, data_len)")
     reports = [
         gen_tree("src/collections/avl_tree.rs", "Gen32", 32, "Avl32.lean"),
         gen_tree("src/collections/u8_avl_tree.rs", "Gen8", 8, "Avl8.lean"),
